@@ -168,7 +168,7 @@ func c17GenJobConfig(r *rand.Rand, name string, quartz, allowH bool) *execution.
 		case 1:
 			p.WithKeys = [][]string{{"a", "b"}, {"a", "a"}, {""}, {"x", " x"}, {}}[r.Intn(5)]
 		case 2:
-			p.WithMatrix = []map[string][]string{{"os": {"l", "m"}, "v": {"1"}}, {"os": {}}, {"Bad Key": {"x"}}, {"k": {"a", "a"}}}[r.Intn(4)]
+			p.WithMatrix = []map[string][]string{{"os": {"l", "m"}, "v": {"1"}}, {"os": {}}, {"Bad Key": {"x"}}, {"k": {"a", "a"}}, {"os": {}, "v": {"1", "2"}}, {"a": {"x"}, "b": {}, "c": {"y", "z"}}}[r.Intn(6)]
 		case 3:
 			p.WithCount = pointer.Int64(2)
 			p.WithKeys = []string{"a"}
